@@ -33,7 +33,8 @@ structure G where
   infos : Array Info := #[default, { name := "b0_0", rev := 0, key := 0, hash := 0, isB := true }]
   tbl : List (Nat × Nat) := [(0, 1)]          -- L1's view of bucket_at
   its : List (Nat × (Nat × W)) := []          -- per-thread iterator
-  lastOut : Out := .unit
+  outs : List (Nat × Out) := []           -- per thread: result of its last model step
+  rzBusy : Nat := 0                         -- 0 = no resize in progress, 1 = growing, 2 = shrinking (coverage only)
   shutdown : Bool := false
   created : Bool := false
   nsteps : Nat := 0
@@ -50,24 +51,43 @@ def modify (f : G → G) : M Unit := P.act fun g => .ok (f g)
 
 @[noinline] def tabulate {α} (f : Nat → α) (n : Nat) : Array α := Array.ofFn (n := n) fun i => f i.val
 
-def compactFn {α} (f : Nat → α) (n : Nat) : Nat → α := fromArr (tabulate f n) f
-
+/-- The tables are computed HERE (strictly, `compact` returns a structure), the closures stored in the state are
+partial applications of `fromArr` to finished arrays.  (Writing `fromArr (tabulate f n) f` in a helper of type
+`Nat → α` gets eta-expanded by the compiler: the table would be rebuilt at every application — exponential.) -/
 def compact (s : State) : State :=
   let n := s.hi
-  { s with nxt := compactFn s.nxt n, hsh := compactFn s.hsh n, rev := compactFn s.rev n, key := compactFn s.key n,
-           isB := compactFn s.isB n, life := compactFn s.life n, freed := compactFn s.freed n,
-           wins := compactFn s.wins n, dels := compactFn s.dels n, ownRet := compactFn s.ownRet n,
-           unlAt := compactFn s.unlAt n, tbl := compactFn s.tbl 300, alloc := compactFn s.alloc 66,
-           th := compactFn s.th 64, cs := compactFn s.cs 64 }
+  let aNxt := tabulate s.nxt n; let aHsh := tabulate s.hsh n; let aRev := tabulate s.rev n
+  let aKey := tabulate s.key n; let aIsB := tabulate s.isB n; let aLife := tabulate s.life n
+  let aFreed := tabulate s.freed n; let aWins := tabulate s.wins n; let aDels := tabulate s.dels n
+  let aOwn := tabulate s.ownRet n; let aUnl := tabulate s.unlAt n; let aTbl := tabulate s.tbl 300
+  let aAlloc := tabulate s.alloc 66; let aTh := tabulate s.th 64; let aCs := tabulate s.cs 64
+  { s with nxt := fromArr aNxt s.nxt, hsh := fromArr aHsh s.hsh, rev := fromArr aRev s.rev, key := fromArr aKey s.key,
+           isB := fromArr aIsB s.isB, life := fromArr aLife s.life, freed := fromArr aFreed s.freed,
+           wins := fromArr aWins s.wins, dels := fromArr aDels s.dels, ownRet := fromArr aOwn s.ownRet,
+           unlAt := fromArr aUnl s.unlAt, tbl := fromArr aTbl s.tbl, alloc := fromArr aAlloc s.alloc,
+           th := fromArr aTh s.th, cs := fromArr aCs s.cs }
+
+def lblName : Label → String
+  | .rlock => "rlock" | .runlock => "runlock" | .callAdd .. => "callAdd" | .callReplace .. => "callReplace"
+  | .callDel => "callDel" | .callLookup .. => "callLookup" | .callDup _ => "callDup" | .callNext => "callNext"
+  | .callFirst => "callFirst" | .ldSize => "ldSize" | .ldHeadA => "ldHeadA" | .ldNextA => "ldNextA"
+  | .casIns => "casIns" | .casGc => "casGc" | .ldWalk => "ldWalk" | .ldAssertW => "ldAssertW" | .casRepl => "casRepl"
+  | .ldAssertR => "ldAssertR" | .ldHeadG => "ldHeadG" | .ldNextG => "ldNextG" | .ldDel => "ldDel" | .orRem => "orRem"
+  | .ldAssertD => "ldAssertD" | .ldDel2 => "ldDel2" | .xchgOwn => "xchgOwn" | .orOwn => "orOwn" | .ldHeadL => "ldHeadL"
+  | .ldFirst => "ldFirst" | .rzLock => "rzLock" | .rzUnlock => "rzUnlock" | .tblAlloc _ => "tblAlloc"
+  | .spawn .. => "spawn" | .join _ => "join" | .partBegin => "partBegin" | .partEnd => "partEnd"
+  | .stSizeGrow => "stSizeGrow" | .stSizeShrink => "stSizeShrink" | .gpStart => "gpStart" | .gpEnd => "gpEnd"
+  | .tblFree => "tblFree" | .orBkt => "orBkt" | .reclaim _ => "reclaim"
 
 /-- replay one label of the proven model for thread `t` -/
 def lbl (t : Nat) (l : Label) : M Unit := P.act fun g =>
   if !g.model then .ok g else
+  let g := { g with cov := bump g.cov ("m." ++ lblName l) }
   match step g.c g.s t l with
   | some (_, .crash) => .error s!"model: {repr l} dereferences NULL / freed / never linked memory (pc={repr (g.s.th t).pc})"
   | some (s', o) =>
     let s'' := if (g.nsteps + 1) % 96 == 0 then compact s' else s'
-    .ok { g with s := s'', lastOut := o, nsteps := g.nsteps + 1 }
+    .ok { g with s := s'', outs := (t, o) :: g.outs.filter (·.1 != t), nsteps := g.nsteps + 1 }
   | none => .error s!"model step {repr l} not enabled for T{t} (pc={repr (g.s.th t).pc})"
 
 def idOf (tok : String) : M Nat := do
@@ -106,17 +126,39 @@ def chkMem (i : Nat) (w : W) (what : String) : M Unit := do
     let nm := (g.infos[i]?.map (·.name)).getD "?"
     P.fail s!"{what} {nm}: implementation sees {showW w}, model memory holds {showW (g.s.nxt i)}"
 
+/-- memory order of an access: the one of the C text, or a stronger one (DESIGN §1.2: a stronger order is at most an
+extra fence on x86; a weaker one is a divergence) -/
+def moRank (kind : String) (mo : Nat) : Option Nat :=
+  match kind, mo with
+  | "LD", 0 => some 0 | "LD", 1 => some 1 | "LD", 2 => some 2 | "LD", 5 => some 3 | "LD", 6 => some 4
+  | "ST", 0 => some 0 | "ST", 3 => some 1 | "ST", 5 => some 2 | "ST", 6 => some 3
+  | "RMW", 0 => some 0 | "RMW", 1 => some 1 | "RMW", 2 => some 1 | "RMW", 3 => some 1 | "RMW", 4 => some 2
+  | "RMW", 5 => some 3 | "RMW", 6 => some 4
+  | _, _ => none
+
+def chkMo (kind what tok : String) (want : Nat) : M Unit :=
+  match tok.toNat? with
+  | some got =>
+    match moRank kind got, moRank kind want with
+    | some a, some b => if got == want || a > b then pure () else P.fail s!"{what}: memory order {got}, the C text uses {want} (weaker)"
+    | _, _ => P.fail s!"{what}: memory order {got} is not valid for this access"
+  | none => P.fail s!"{what}: no memory order"
+
 def bucketAt (idx : Nat) : M Nat := do
   let g ← P.get
   match g.tbl.find? (·.1 == idx) with
   | some (_, i) => pure i
   | none => P.fail s!"bucket_at({idx}): no table allocated for this index"
 
-/-- `LD <node>.next` -/
+/-- `LD <node>.next`: `rcu_dereference` (consume) in the traversals, `uatomic_load` (relaxed) in the assertions and in del -/
 def ldNode (t i : Nat) (l : Label) : M W := do
   let nm := (← info i).name
   let a ← P.evAt "LD" nm
   let w ← parseW (a.getD 0 "")
+  let want := match l with
+    | .ldAssertW | .ldAssertR | .ldAssertD | .ldDel | .ldDel2 => 0
+    | _ => 1
+  chkMo "LD" s!"LD {nm}" (a.getD 1 "") want
   chkMem i w "LD"
   lbl t l
   pure w
@@ -128,17 +170,20 @@ def casNode (t i : Nat) (exp new : W) (l : Label) : M W := do
   let e ← parseW (a.getD 0 ""); let n ← parseW (a.getD 1 ""); let o ← parseW (a.getD 2 "")
   if e != exp then P.fail s!"CAS {nm}: expected-value argument {showW e}, the C text computes {showW exp}"
   if n != new then P.fail s!"CAS {nm}: new-value argument {showW n}, the C text computes {showW new}"
+  chkMo "RMW" s!"CAS {nm} (success order)" (a.getD 3 "") 6
+  chkMo "RMW" s!"CAS {nm} (failure order)" (a.getD 4 "") 0
   chkMem i o "CAS"
   lbl t l
   chkMem i (if o == exp then new else o) "after CAS"
   pure o
 
-/-- `uatomic_or(&<node>.next, REMOVED_FLAG)` -/
+/-- `uatomic_or(&<node>.next, REMOVED_FLAG)`: release in `_cds_lfht_del`, default (relaxed) in `remove_table_partition` -/
 def orNode (t i : Nat) (l : Label) : M Unit := do
   let nm := (← info i).name
   let a ← P.evAt "OR" nm
   if a.getD 0 "" != toString Gen.REMOVED_FLAG then P.fail s!"OR {nm}: operand {a.getD 0 ""}, expected REMOVED_FLAG"
   let r ← parseW (a.getD 1 "")
+  chkMo "RMW" s!"OR {nm}" (a.getD 2 "") (if l == .orRem then 3 else 0)
   lbl t l
   chkMem i r "after OR"
 
@@ -148,6 +193,7 @@ def xchgNode (t i : Nat) (new : W) (l : Label) : M W := do
   let a ← P.evAt "XCHG" nm
   let n ← parseW (a.getD 0 ""); let o ← parseW (a.getD 1 "")
   if n != new then P.fail s!"XCHG {nm}: new value {showW n}, the C text computes {showW new}"
+  chkMo "RMW" s!"XCHG {nm}" (a.getD 2 "") 6
   chkMem i o "XCHG"
   lbl t l
   chkMem i new "after XCHG"
@@ -158,6 +204,7 @@ def xchgNode (t i : Nat) (new : W) (l : Label) : M W := do
 
 def ldSize (t : Nat) : M Nat := do
   let a ← P.evAt "LD" "ht.size"
+  chkMo "LD" "LD ht.size" (a.getD 1 "") 2        -- rcu_dereference-like acquire load of the published size
   match (a.getD 0 "").toNat? with
   | some v =>
     let g ← P.get
@@ -173,6 +220,7 @@ partial def walkLoop (t : Nat) (kind : WalkKind) (rh key : Nat) (node : Nat) : M
   if kind != .next && i.rev > rh then return (0, {})
   let next ← ldNode t node .ldWalk
   if next.rem then cover "walk_skip_removed"
+  if next.bkt then cover "walk_skip_bucket"
   let hit := !next.rem && !next.bkt &&
     (match kind with
      | .lookup => i.rev == rh && i.key == key
@@ -193,7 +241,7 @@ partial def addInner (t : Nat) (mode : Mode) (node key bucket iterPrev : Nat) (i
   let ni ← info node
   let ins : M (Nat × W) := do
     let old ← casNode t iterPrev iter { ptr := node, bkt := iter.bkt } .casIns
-    if old != iter then do cover "cas_ins_fail"; addRetry t mode node key bucket
+    if old != iter then do cover (if mode == .bkt then "populate_cas_fail" else "cas_ins_fail"); addRetry t mode node key bucket
     else do cover "cas_ins_ok"; pure (node, {})
   if iter.ptr == 0 then ins else
   let ii ← info iter.ptr
@@ -255,9 +303,10 @@ def delP (t size node : Nat) : M Int := do
 
 /-! ### API level -/
 
-def outIs (what : String) (o : Out) : M Unit := do
+def outIs (t : Nat) (what : String) (o : Out) : M Unit := do
   let g ← P.get
-  if g.model && g.lastOut != o then P.fail s!"{what}: model returned {repr g.lastOut}, implementation {repr o}"
+  let mo := ((g.outs.find? (·.1 == t)).map (·.2)).getD .unit
+  if g.model && mo != o then P.fail s!"{what}: model returned {repr mo}, implementation {repr o}"
 
 def getIt (t : Nat) : M (Nat × W) := do
   let g ← P.get
@@ -281,7 +330,7 @@ def retIter (t : Nat) (op : String) (r : Nat × W) : M Unit := do
   let n ← parseW (a.getD 0 ""); let w ← parseW (a.getD 1 "")
   if n.ptr != r.1 || (r.1 != 0 && w != r.2) then
     P.fail s!"RET {op}: implementation returned ({n.ptr},{showW w}), the C text yields ({r.1},{showW r.2})"
-  outIs s!"RET {op}" (.iter r.1 (if r.1 == 0 then {} else r.2))
+  outIs t s!"RET {op}" (.iter r.1 (if r.1 == 0 then {} else r.2))
   setIt t (if r.1 == 0 then (0, {}) else r)
   cover (if r.1 == 0 then s!"{op}_null" else s!"{op}_found")
 
@@ -294,6 +343,9 @@ partial def addReplaceLoop (t node k bucket size : Nat) : M Nat := do
     if r == 0 then pure n else do cover "add_replace_retry"; addReplaceLoop t node k bucket size
 
 def callOp (t : Nat) (e : Ev) : M Unit := do
+  let g ← P.get
+  if g.rzBusy == 1 && e.arg 0 != "resize" then cover s!"{e.arg 0}_during_grow"
+  if g.rzBusy == 2 && e.arg 0 != "resize" then cover s!"{e.arg 0}_during_shrink"
   match e.arg 0 with
   | "add" | "add_unique" | "add_replace" =>
     let op := e.arg 0
@@ -305,20 +357,20 @@ def callOp (t : Nat) (e : Ev) : M Unit := do
     let bucket ← bucketAt (h % size)
     if op == "add" then do
       let _ ← addRetry t .plain node k bucket
-      P.expect "RET" ["add"]; outIs "RET add" .unit
+      P.expect "RET" ["add"]; outIs t "RET add" .unit
     else if op == "add_unique" then do
       let (n, _) ← addRetry t .uniq node k bucket
       let a ← P.evAt "RET" "add_unique"
       let w ← parseW (a.getD 0 "")
       if w.ptr != n then P.fail s!"RET add_unique: implementation returned {w.ptr}, the C text yields {n}"
-      outIs "RET add_unique" (.node n)
+      outIs t "RET add_unique" (.node n)
       cover (if n == node then "add_unique_inserted" else "add_unique_existing")
     else do
       let r ← addReplaceLoop t node k bucket size
       let a ← P.evAt "RET" "add_replace"
       let w ← parseW (a.getD 0 "")
       if w.ptr != r then P.fail s!"RET add_replace: implementation returned {w.ptr}, the C text yields {r}"
-      outIs "RET add_replace" (.node r)
+      outIs t "RET add_replace" (.node r)
       cover (if r == 0 then "add_replace_inserted" else "add_replace_replaced")
   | "replace" =>
     let h ← num (e.arg 2); let k ← num (e.arg 3)
@@ -327,13 +379,13 @@ def callOp (t : Nat) (e : Ev) : M Unit := do
     lbl t (.callReplace node h k)
     let size ← ldSize t
     let r ← replP t size old oldNext node
-    P.expect "RET" ["replace", toString r]; outIs "RET replace" (.ret r)
+    P.expect "RET" ["replace", toString r]; outIs t "RET replace" (.ret r)
   | "del" =>
     let (old, _) ← getIt t
     lbl t .callDel
     let size ← ldSize t
     let r ← delP t size old
-    P.expect "RET" ["del", toString r]; outIs "RET del" (.ret r)
+    P.expect "RET" ["del", toString r]; outIs t "RET del" (.ret r)
   | "lookup" =>
     let h ← num (e.arg 1); let k ← num (e.arg 2)
     lbl t (.callLookup h k)
@@ -407,23 +459,27 @@ def partition (t o : Nat) (grow : Bool) : M Unit := do
 partial def rzBody (t : Nat) (cur : Nat) (grow : Bool) : M Unit := do
   let e ← P.ev "resize event" some
   match e.op, e.args with
-  | "UNLOCK", ["ht.rmutex"] => lbl t .rzUnlock
+  | "UNLOCK", ["ht.rmutex"] => do lbl t .rzUnlock; modify fun g => { g with rzBusy := 0 }
   | "TBL_ALLOC", [o, gen] =>
     let o ← num o
     let base ← registerTable o gen
     lbl t (.tblAlloc base)
     cover "grow_level"
+    modify fun g => { g with rzBusy := 1 }
     rzBody t o true
   | "WMB", _ =>
-    let a ← P.evAt "ST" "ht.size"
+    let a ← P.evAt "ST" "ht.size"       -- fini_table: cmm_smp_wmb(); uatomic_store(&ht->size, …) (relaxed)
     let v ← num (a.getD 0 "")
+    chkMo "ST" "ST ht.size (shrink)" (a.getD 1 "") 0
     lbl t .stSizeShrink
     let g ← P.get
     if g.model && g.s.size != v then P.fail s!"ST ht.size {v} (shrink), model stores {g.s.size}"
     cover "shrink_level"
+    modify fun g => { g with rzBusy := 2 }
     rzBody t (Nat.log2 v + 1) false
-  | "ST", "ht.size" :: v :: _ =>
+  | "ST", "ht.size" :: v :: mo :: _ =>     -- init_table: uatomic_store(&ht->size, 1UL << i, CMM_RELEASE)
     let v ← num v
+    chkMo "ST" "ST ht.size (grow)" mo 3
     lbl t .stSizeGrow
     let g ← P.get
     if g.model && g.s.size != v then P.fail s!"ST ht.size {v} (grow), model stores {g.s.size}"
